@@ -371,10 +371,69 @@ def job_array(job, variants=(("f8", False), ("i8", False), ("i8", True), ("f8", 
             job.errors.append(f"array[{tagv}]: expected the three orderings around the bubble point, got {sorted(seen)}")
 
 
+def replay_zero_d(model, fn="density_Standing"):
+    """The oil correlations with their scalar parameters passed as 0-d numpy arrays (np.array(650.0)): same results as with
+    floats on both sides of the bubble point, and the caller's arrays are left alone."""
+    import numpy as np
+    from bluebonnet.fluids import oil
+    m = model_floats(model, ["T", "api", "gg", "rsi"], default=dict(T=200.0, api=35.0, gg=0.8, rsi=650.0))
+    T_, api, gg, rsi = _oil_args(m)
+    pb = float(oil.pressure_bubblepoint_Standing(T_, api, gg, rsi))
+    f = getattr(oil, fn)
+    problems = []
+    for p in (0.6 * pb, pb, 1.4 * pb):
+        boxes = [np.array(v) for v in (T_, api, gg, rsi)]
+        with np.errstate(all="ignore"):
+            got = float(f(boxes[0], p, boxes[1], boxes[2], boxes[3]))
+            again = float(f(boxes[0], p, boxes[1], boxes[2], boxes[3]))
+            want = float(f(T_, p, api, gg, rsi))
+        after = [float(b) for b in boxes]
+        if after != [T_, api, gg, rsi]:
+            problems.append(f"{fn} at p={p!r}: the caller's 0-d parameters (T, API, gas gravity, GOR) changed from {[T_, api, gg, rsi]} to {after}")
+        if not (abs(got - want) <= 1e-12 * abs(want) and abs(again - want) <= 1e-12 * abs(want)):
+            problems.append(f"{fn} at p={p!r} with 0-d array parameters: {got!r}, then {again!r}; with floats {want!r}")
+    return bool(problems), {"what": "; ".join(problems[:2]) or "0-d array parameters behave like floats and are left alone", "inputs": m}
+
+
+def job_zero_d(job):
+    """Scalar parameters handed over as 0-d arrays (mutable): the correlations read them and leave them alone - a result
+    that aliases an input and is then updated in place would change the caller's fluid for every later call."""
+    from ..sx.sym import SymBox
+    sp = _uf("c_o_Spivey", like=__import__("bluebonnet.fluids.oil", fromlist=["x"]).oil_compressibility_undersat_Spivey)
+    oil, vs, dom, a4 = _setup(job, extra=dict(p=(15, 50000)), oil_compressibility_undersat_Spivey=sp)
+    job.encoded(oil, "solution_gor_Standing", "b_o_Standing", "density_Standing", "viscosity_beggs_robinson")
+    p = vs["p"]
+    pb, pbc = _pb_conds(oil, a4, [p])
+    dom = dom + pbc
+    for fn in ("solution_gor_Standing", "b_o_Standing", "density_Standing", "viscosity_beggs_robinson"):
+        f = getattr(oil, fn)
+
+        def run():
+            boxes = [SymBox(v.p) for v in a4]
+            before = [b.p for b in boxes]
+            out = f(boxes[0], p, boxes[1], boxes[2], boxes[3])
+            out_p = P(out)
+            changed = [k for k in range(4) if boxes[k].p != before[k]]
+            return out_p, changed
+        res = paths(job, run, dom)
+        plain = {bool(r.ctx.known.get(k)) for r in res for k in ()}
+        for k, pr in enumerate(res):
+            if pr.exc is not None:
+                job.prove(f"0-d parameters/{fn} raises {type(pr.exc).__name__}[path{k}]", pr.pc, bound="oil box", replay=(replay_zero_d, {"fn": fn}), note=repr(pr.exc)[:80])
+                continue
+            out_p, changed = pr.value
+            if changed:
+                job._violation(f"0-d parameters/{fn} leaves the caller's parameters alone[path{k}]", {},
+                               {"what": f"parameter(s) {[('T', 'API', 'gas gravity', 'GOR')[c] for c in changed]} were written to", "replayer": "replay_zero_d", "replayer_kwargs": {"fn": fn}}, None)
+            else:
+                job.record(f"0-d parameters/{fn} leaves the caller's parameters alone[path{k}]", "unsat", 0.0, note="effect check on the path")
+    job.prove("0-d parameters/reach", dom, expect="sat")
+
+
 from .c19 import job_facade_oil_reassigned, replay_facade  # noqa: E402,F401
 
 
 def jobs(tier):
-    return [("continuity", job_continuity), ("Rs", job_rs), ("Bo", job_bo), ("viscosity", job_visc), ("facade-oil-reassigned", job_facade_oil_reassigned)] + \
+    return [("continuity", job_continuity), ("Rs", job_rs), ("Bo", job_bo), ("viscosity", job_visc), ("facade-oil-reassigned", job_facade_oil_reassigned), ("zero-d-parameters", job_zero_d)] + \
         [(f"array-{dt}{'-int' if intp else ''}", (lambda j, v=(dt, intp): job_array(j, (v,)))) for dt, intp in (("f8", False), ("i8", False), ("i8", True), ("f8", True))] + \
         [("array-f8-descending", lambda j: job_array(j, (("f8", False, True),)))]
